@@ -288,7 +288,7 @@ func framingRules(p *Prog, r *Report, R string) {
 		r.Check(okRd, R, f.Name+"/length-read", rd.Pos(p), "length read as 8 bytes big-endian by a complete read ("+how+")", "the length prefix is not read completely as a 64-bit big-endian integer (binary.Read(BigEndian, &int64), or io.ReadFull of 8 bytes + BigEndian.Uint64): "+how)
 		raw := f.Ev("call", "Conn.Read")
 		if t == "connipc" {
-			ok1 := len(raw) == 1 && raw[0].Args[1] == "$one[:]" && len(rd) == 1 && rd.DominatedBy(raw)
+			ok1 := len(raw) == 1 && litEq(raw[0].Args[1], "$one[:]") && len(rd) == 1 && rd.DominatedBy(raw)
 			if ok1 {
 				// $one is a 1-byte array
 				ok1 = false
@@ -409,10 +409,19 @@ func wsRules(p *Prog, r *Report, R string) {
 			}
 		}
 		// the "some offered sub-protocol matched" flag only ever goes from false to true
+		// (the flag is the boolean local the upgrade is conditional on, whatever its name)
+		flag := ""
+		if len(up) == 1 {
+			for _, a := range up[0].Guard {
+				if localTok.FindString(a) == a && strings.HasPrefix(a, "φ") {
+					flag = a
+				}
+			}
+		}
 		mono, nphi := true, 0
 		EachInstr(sh.fn, func(in ssa.Instruction) {
 			ph, ok := in.(*ssa.Phi)
-			if !ok || ph.Comment != "matched" {
+			if !ok || flag == "" || Desc(ph) != flag {
 				return
 			}
 			nphi++
@@ -420,7 +429,7 @@ func wsRules(p *Prog, r *Report, R string) {
 				switch x := e.(type) {
 				case *ssa.Const:
 				case *ssa.Phi:
-					if x.Comment != "matched" {
+					if Desc(x) != flag {
 						mono = false
 					}
 				default:
@@ -433,7 +442,7 @@ func wsRules(p *Prog, r *Report, R string) {
 		he := sh.Ev("call", "http.Error")
 		okOrder := len(up) == 1 && len(he) >= 1
 		if okOrder {
-			okOrder = hasAtom(up[0].Guard, "φmatched")
+			okOrder = flag != "" && hasAtom(up[0].Guard, flag)
 		}
 		r.Check(okOrder, R, "ws/mismatch-before-upgrade", up.Pos(p), "a mismatching peer is refused before the upgrade", "the upgrade happens without a matching sub-protocol")
 	}
